@@ -7,6 +7,12 @@ package saml2
 
 import (
 	"bytes"
+	"crypto/aes"
+	"crypto/cipher"
+	"crypto/rsa"
+	"crypto/sha1"
+	"crypto/sha512"
+	"hash"
 	"crypto"
 	"encoding/base64"
 	"reflect"
@@ -363,13 +369,27 @@ func vHex(b byte) string   { return fmt.Sprintf("%02x", b) }
 
 // ---- keys ----
 
+// vBytes: the solver's content, padded / cut to the solver's length (length and content are separate
+// terms in the encoding).
 func vBytes(name string) []byte {
-	v, _ := vxGet(vxFresh(name))
+	n := vxFresh(name)
+	v, _ := vxGet(n)
 	s, _ := v.(string)
-	if s == "" {
+	b := []byte(s)
+	if _, ok := vx.inputs[n+".len"]; ok {
+		L := int(vxI64(n + ".len"))
+		if L > 1<<20 {
+			L = 1 << 20
+		}
+		for len(b) < L {
+			b = append(b, byte('a'+len(b)%26))
+		}
+		b = b[:L]
+	}
+	if len(b) == 0 {
 		return nil
 	}
-	return []byte(s)
+	return b
 }
 func vB64(b []byte) string { return base64.StdEncoding.EncodeToString(b) }
 func vStr(b []byte) string { return string(b) }
@@ -386,3 +406,100 @@ func vCtxCerts(ctx *dsig.SigningContext) [][]byte {
 	c, _ := vxPrivateField(ctx, "certs").Interface().([][]byte)
 	return c
 }
+
+// ---- crypto concretisers ----
+
+var vxRSAKeys = map[string]*rsa.PrivateKey{}
+
+func vRSAKey(name string) *rsa.PrivateKey {
+	if k, ok := vxRSAKeys[name]; ok {
+		return k
+	}
+	k, err := rsa.GenerateKey(vxOrigRandReader, 2048)
+	if err != nil {
+		panic(err)
+	}
+	vxRSAKeys[name] = k
+	return k
+}
+
+// vWrapKey really wraps payload to key with the declared transport (or returns garbage).
+func vWrapKey(name string, key *rsa.PrivateKey, transportAlg, digestAlg string, payload []byte) string {
+	n := vxFresh(name)
+	if ok, _ := vx.inputs[n+".b64ok"].(bool); !ok {
+		return "%%%not-base64%%%"
+	}
+	var ct []byte
+	var err error
+	switch transportAlg {
+	case "http://www.w3.org/2001/04/xmlenc#rsa-oaep-mgf1p", "http://www.w3.org/2009/xmlenc11#rsa-oaep":
+		var h hash.Hash
+		switch digestAlg {
+		case "", "http://www.w3.org/2000/09/xmldsig#sha1":
+			h = sha1.New()
+		case "http://www.w3.org/2000/09/xmldsig#sha256":
+			h = sha256.New()
+		case "http://www.w3.org/2000/09/xmldsig#sha512":
+			h = sha512.New()
+		default:
+			h = sha256.New224()
+		}
+		ct, err = rsa.EncryptOAEP(h, vxOrigRandReader, &key.PublicKey, payload, nil)
+	case "http://www.w3.org/2001/04/xmlenc#rsa-1_5":
+		ct, err = rsa.EncryptPKCS1v15(vxOrigRandReader, &key.PublicKey, payload)
+	default:
+		ct = bytes.Repeat([]byte{0x5a}, 256)
+	}
+	if err != nil {
+		ct = bytes.Repeat([]byte{0x5b}, 256)
+	}
+	return base64.StdEncoding.EncodeToString(ct)
+}
+
+func vxPlainBytes(n string, count int) []byte {
+	out := make([]byte, count)
+	for i := 0; i < count; i++ {
+		out[i] = byte(vxI64(fmt.Sprintf("%s.plain.%02d", n, i)))
+	}
+	return out
+}
+
+// vCipherValue builds a ciphertext of the solver's length whose decryption under key (with the declared
+// algorithm) yields the solver's post-decryption bytes (CBC) / opens successfully or not (GCM).
+func vCipherValue(name string, alg string, key []byte, maxLen int) string {
+	n := vxFresh(name)
+	if ok, _ := vx.inputs[n+".b64ok"].(bool); !ok {
+		return "%%%not-base64%%%"
+	}
+	L := int(vxI64(n + ".len"))
+	if L < 0 {
+		L = 0
+	}
+	D := make([]byte, L)
+	blk, kerr := aes.NewCipher(key)
+	switch alg {
+	case "http://www.w3.org/2001/04/xmlenc#aes128-cbc", "http://www.w3.org/2001/04/xmlenc#aes256-cbc", "http://www.w3.org/2001/04/xmlenc#tripledes-cbc":
+		if kerr == nil && L >= 16 && L%16 == 0 {
+			P := vxPlainBytes(n, L-16)
+			cipher.NewCBCEncrypter(blk, D[:16]).CryptBlocks(D[16:], P)
+		}
+	case "http://www.w3.org/2009/xmlenc11#aes128-gcm", "http://www.w3.org/2009/xmlenc11#aes192-gcm", "http://www.w3.org/2009/xmlenc11#aes256-gcm":
+		if ok, _ := vx.inputs[n+".gcm_ok"].(bool); ok && kerr == nil && L >= 28 {
+			g, _ := cipher.NewGCM(blk)
+			ct := g.Seal(nil, D[:12], make([]byte, L-28), nil)
+			copy(D[12:], ct)
+		}
+	}
+	return base64.StdEncoding.EncodeToString(D)
+}
+func vPlainByte(name string, i int) byte { return byte(vxI64(fmt.Sprintf("%s.plain.%02d", name, i))) }
+func vCipherLen(cv string) int {
+	d, _ := base64.StdEncoding.DecodeString(cv)
+	return len(d)
+}
+func vB64OK(s string) bool {
+	_, err := base64.StdEncoding.DecodeString(s)
+	return err == nil
+}
+func vByteAt(b []byte, i int) byte { return b[i] }
+func vRSADecryptCalls() int       { return 0 }
